@@ -49,7 +49,10 @@ type mtWorkload struct {
 	everCls  map[string]bool
 	everTok  map[string]bool
 	quiet    bool
+	followUp []mtFollow // after a rolled-back handover: the would-be new owner tries to use the class
 }
+
+type mtFollow struct{ Class, Actor string }
 
 func newMTWorkload() *mtWorkload {
 	return &mtWorkload{model: map[string]*mtClass{}, everCls: map[string]bool{}, everTok: map[string]bool{}}
@@ -148,14 +151,35 @@ func (w *mtWorkload) Next(block int) []rig.Tx {
 	rng := w.run.Rng
 	r := w.r
 	var out []rig.Tx
+	for _, f := range w.followUp {
+		if a := findAcc(r, f.Actor); a != nil && w.model[f.Class] != nil {
+			out = append(out, r.Mk(a, &mtTag{Op: "mint-new"}, &mttypes.MsgMintMT{DenomId: f.Class, Amount: 5, Data: []byte("after-rollback"), Sender: f.Actor, Recipient: f.Actor}),
+				r.Mk(a, &mtTag{Op: "transfer-class"}, &mttypes.MsgTransferDenom{Id: f.Class, Sender: f.Actor, Recipient: f.Actor}))
+		}
+	}
+	w.followUp = nil
 	n := 1 + rng.Intn(4)
 	for i := 0; i < n; i++ {
 		classes := w.classes()
-		wts := []int{5, 25, 12, 28, 18, 8}
+		wts := []int{5, 25, 12, 28, 18, 8, 5}
 		if len(classes) == 0 {
-			wts = []int{1, 0, 0, 0, 0, 0}
+			wts = []int{1, 0, 0, 0, 0, 0, 0}
 		}
 		switch weighted(rng, wts) {
+		case 6:
+			// one transaction, two messages: a valid handover of the class by its owner, then a message that always fails
+			// (burn of an unknown token): the transaction is rolled back as a whole and nothing of the handover may remain
+			cid := classes[rng.Intn(len(classes))]
+			c := w.model[cid]
+			a := findAcc(r, c.Owner)
+			b := r.Acc(rng.Intn(len(r.Accounts)))
+			if a == nil || a == b {
+				continue
+			}
+			out = append(out, r.Mk(a, &mtTag{Op: "bundle-rolled-back"},
+				&mttypes.MsgTransferDenom{Id: cid, Sender: c.Owner, Recipient: b.Addr.String()},
+				&mttypes.MsgBurnMT{Id: "0000000000000000000000000000000000000000000000000000000000000000", DenomId: cid, Amount: 1, Sender: c.Owner}))
+			w.followUp = append(w.followUp, mtFollow{Class: cid, Actor: b.Addr.String()})
 		case 0:
 			a := r.Acc(rng.Intn(len(r.Accounts)))
 			out = append(out, r.Mk(a, &mtTag{Op: "issue"}, &mttypes.MsgIssueDenom{Name: fmt.Sprintf(" class%d ", rng.Intn(100)), Data: []byte(fmt.Sprintf("d%d", rng.Intn(10))), Sender: a.Addr.String()}))
@@ -294,6 +318,14 @@ func (w *mtWorkload) Observe(br *rig.BlockRecord) {
 	}
 	for _, tx := range br.Txs {
 		tag, _ := tx.Tag.(*mtTag)
+		if tag != nil && tag.Op == "bundle-rolled-back" {
+			w.run.Eval(1)
+			w.run.Count("mt-bundle-rolled-back"+okSuffix(tx), 1)
+			if tx.OK() {
+				w.run.Violation("C15:mt:transaction-with-a-failing-message-succeeded", map[string]any{"height": br.Height, "msgs": msgBrief(tx.Msgs)}, "a transaction whose second message burns an unknown token succeeded")
+			}
+			continue // rejected as a whole: the reference does not move; the next successful transaction's comparison covers it
+		}
 		if tag == nil || len(tx.Msgs) != 1 {
 			continue
 		}
